@@ -36,6 +36,8 @@ def r03_1(run):
         if isinstance(tg, (ast.Tuple, ast.List)) and len(tg.elts) > idx_d and isinstance(tg.elts[idx_d], ast.Name):
             dname = tg.elts[idx_d].id
         errs = [c for c in ast.walk(lp) if isinstance(c, ast.Call) and callee_attr(c) == 'errback']
+        if dname is None and isinstance(tg, ast.Name):
+            dname = '%s[%d]' % (tg.id, idx_d)        # the entry kept whole: its Deferred is <entry>[idx]
         if errs:
             loops.append((lp, dname, errs))
     run.floor('R03.1', 'errback loops in connectionLost', len(loops), 1)
@@ -52,7 +54,7 @@ def r03_1(run):
                 run.ob('R03.1', cl, lp, 'both legs of the outstanding-list expression include the queue', okb, slot='outstanding-legs',
                        message='outstanding commands expression %s drops the queued commands on one leg' % src(it))
         for e in errs:
-            r = dotted(receiver(e))
+            r = dotted(receiver(e)) or src(receiver(e))
             ok = dname is not None and r == dname
             run.ob('R03.1', cl, e, "the loop errbacks each command's Deferred (tuple element %d)" % idx_d, ok, slot='errback-target',
                    message='errback is called on %s, the Deferred is tuple element %d (%s)' % (r, idx_d, dname))
@@ -74,7 +76,7 @@ def r03_1(run):
             neg = False
             while isinstance(a, ast.UnaryOp) and isinstance(a.op, ast.Not):
                 a, neg = a.operand, not neg
-            if dotted(a) == dname + '.called':
+            if (dotted(a) or src(a)) == dname + '.called':
                 return neg          # called is False
             return None
         body_start = [s_ for lab, s_ in first[0].succ if lab == 'body']
@@ -82,8 +84,8 @@ def r03_1(run):
             run.paths_enumerated += 1
             if p_.exit == 'raise':
                 continue
-            ne = sum(1 for n, _ in p_.steps if n.kind == 'stmt' for a in node_asts(n) if isinstance(a, ast.Call) and callee_attr(a) == 'errback' and dotted(receiver(a)) == dname)
-            nc = sum(1 for n, _ in p_.steps if n.kind == 'stmt' for a in node_asts(n) if isinstance(a, ast.Call) and callee_attr(a) == 'callback' and dotted(receiver(a)) == dname)
+            ne = sum(1 for n, _ in p_.steps if n.kind == 'stmt' for a in node_asts(n) if isinstance(a, ast.Call) and callee_attr(a) == 'errback' and (dotted(receiver(a)) or src(receiver(a))) == dname)
+            nc = sum(1 for n, _ in p_.steps if n.kind == 'stmt' for a in node_asts(n) if isinstance(a, ast.Call) and callee_attr(a) == 'callback' and (dotted(receiver(a)) or src(receiver(a))) == dname)
             run.ob('R03.1', cl, lp, 'every command whose Deferred has not fired is failed exactly once', ne == 1 and nc == 0, slot='loop-fails-each',
                    message='the errback loop has a path on which an unanswered command gets %d errback(s) and %d callback(s): %s' % (ne, nc, p_.describe(6)),
                    path=p_.describe(8))
@@ -285,7 +287,7 @@ def r03_3(run):
             a = t.ast
             if dotted(a.func) == 'self._when_disconnected.already_fired':
                 arg = a.args[0] if a.args else None
-                ok = isinstance(arg, ast.Name) and unp.get(idx_d) == arg.id
+                ok = (isinstance(arg, ast.Name) and unp.get(idx_d) == arg.id) or (arg is not None and c01.popped_element(run, arg) == idx_d)
                 run.ob('R03.3', mi, a, "post-loss submissions are failed through their own Deferred", ok, slot='already-fired-arg',
                        message='already_fired is given %s, not the popped command\'s Deferred' % src(arg))
 
